@@ -233,8 +233,20 @@ def main():
         ] + list(getattr(mod, "TRUSTED", []))
         ctx.assumptions = list(getattr(mod, "ASSUMPTIONS", []))
         ctx.rule = getattr(mod, "RULE", "")
-        if args.replay:
+        if args.replay and hasattr(mod, "replay"):
             mod.replay(ctx, json.load(open(args.replay)))
+        elif args.replay:
+            # no targeted replay for this property: the replay file records seed and tier, the full check
+            # with that seed reproduces the case deterministically
+            body = json.load(open(args.replay))
+            ctx.log("no targeted replay entry point; re-running the full check with seed %s / tier %s" % (body.get("seed"), body.get("tier")))
+            if isinstance(body.get("seed"), int):
+                ctx.seed = body["seed"]
+                import random as _random
+                ctx.rng = _random.Random(ctx.seed * 1000003 + int(prop[1:]))
+            if body.get("tier") in ("quick", "thorough"):
+                ctx.tier = body["tier"]
+            mod.run(ctx)
         else:
             mod.run(ctx)
     except Exception:
